@@ -156,6 +156,19 @@ def run_cls(case, bus, ex):
         o64 = np.asarray(st64(u64))
         rec = taps.etdrk_intent(st64._integrator)
         zz = np.asarray(rec["linear_operator"]).astype(complex) * float(rec["dt"])
+        # mixed sessions in one process: an x64 stepper built AFTER a float32 stepper on the same grid must still be double-precise (no state carried over)
+        from rv.refmodel import etdrk_ref as R
+        if name != "stepper.Wave" and N ** D <= 600:
+            Lop64 = np.asarray(rec["linear_operator"])
+            uh64 = np.fft.rfftn(U[0], axes=G.axes(D))
+            nf64 = getattr(st64._integrator, "_nonlinear_fun", None)
+            Nf64 = (lambda w: np.asarray(nf64(jnp.asarray(w)))) if nf64 is not None else (lambda w: 0 * w)
+            ref64 = R.step(rec["order"], float(rec["dt"]), Lop64.astype(complex), Nf64, uh64)
+            got64 = np.asarray(st64.step_fourier(jnp.asarray(uh64)))
+            Sx = float(np.max(np.abs(uh64)) + abs(float(rec["dt"])) * np.max(np.abs(Nf64(uh64)))) + 1e-300
+            okd = str(Lop64.dtype) == "complex128" and str(got64.dtype) == "complex128"
+            bus.judge("step_precision_x64", float(np.max(np.abs(got64 - ref64))) / Sx if okd else np.inf, 4e-12 * (1 + min(float(np.max(np.abs(zz))), 1e3)), sig + ("x64 after f32 in one process",),
+                      witness=dict(info, what="x64 stepper built after a float32 stepper on the same grid", dtypes=[str(Lop64.dtype), str(got64.dtype)]))
         amp = 0.0
         for _ in range(3):
             d = rng.normal(size=U[0].shape)
